@@ -404,8 +404,24 @@ def run(P, R, tier):
     common.fresh_arguments(P, R, 'C18.d', floor=12)
     # C18.e: objects shared between threads (arrays, indexes, frames) are not written by their query methods; only constructors and the
     # enumerated lazily-built caches store attributes (the check-then-build race of those caches is NOT decided, see module docstring)
+    # transient helper objects: a class all of whose instances are created inside a property that returns them at once (`obj.cx` builds a new indexer
+    # on every access) is never shared between threads through the library; stores into such an object are thread-local
+    transient = set()
+    for ci in P.classes.values():
+        sites = []
+        for g in P.all_funcs():
+            for c in astq.own_calls(g):
+                r = P.resolve_call(g, c)
+                if r and r[0] == 'class' and (r[1] is ci or (r[1].mro and ci in r[1].mro)):
+                    par = getattr(c, '_parent', None)
+                    sites.append(g.kind == 'property' and isinstance(par, ast.Return))
+        subs = [c2 for c2 in P.classes.values() if c2.mro and ci in c2.mro]
+        if sites and all(sites) and not any(c2.mod.name != ci.mod.name and False for c2 in subs):
+            transient.add(ci)
     shared = []
     for f in P.all_funcs():
+        if f.cls is not None and (f.cls in transient or any(b in transient for b in (f.cls.mro or []))) and f.name != '__init__':
+            continue
         if f.cls is not None and f.kind in ('method', 'property') and f.mod.name in ('spatialpandas.spatialindex.rtree', 'spatialpandas.geometry.base', 'spatialpandas.geometry.baselist',
                                                                                       'spatialpandas.geometry.basefixed', 'spatialpandas.geoseries', 'spatialpandas.geodataframe', 'spatialpandas.dask') \
                 or (f.cls is not None and f.mod.name.startswith('spatialpandas.geometry.')):
